@@ -171,3 +171,25 @@ package sweep
 //@        result0 + requiredOutput + ite(changeAmt >= changeFloor, changeAmt, 0) == totalInput
 //@   site store TxOut.Value: assert value == changeAmt && changeAmt >= changeFloor
 //@   site call DustLimitForSize: assert arg(0) == len(changePkScript.DeliveryAddress)
+//@
+//@ func (t *TxPublisher) createRBFCompliantTx
+//@   props C18
+//@   loop * havoc
+//@   site call updateRecord: assert retn(createAndCheckTx, 1) == nil && arg(1) == r && arg(2) == retn(createAndCheckTx, 0)
+//@   site call createAndCheckTx: assert arg(1) == r
+//@   site call Increment: assert retn(createAndCheckTx, 1) != nil && arg(0) == f
+//@   site return nil: assert retn(createAndCheckTx, 1) == nil && result0 == ret(updateRecord)
+//@
+//@ func (t *TxPublisher) handleFeeBumpTx
+//@   props C18
+//@   requires r != nil && currentHeight >= 0 && r.req.DeadlineHeight >= 0
+//@   site call calcCurrentConfTarget: assert arg(0) == currentHeight && arg(1) == r.req.DeadlineHeight
+//@   site call IncreaseFeeRate: assert arg(0) == r.feeFunction && arg(1) == ret(calcCurrentConfTarget)
+//@   site call createAndPublishTx: assert retn(IncreaseFeeRate, 1) == nil && retn(IncreaseFeeRate, 0) && arg(1) == r
+//@
+//@ func (t *TxPublisher) createAndPublishTx
+//@   props C18
+//@   site call createAndCheckTx: assert arg(1) == r
+//@   site call updateRecord: assert retn(createAndCheckTx, 1) == nil && arg(1) == r && arg(2) == retn(createAndCheckTx, 0)
+//@   site call broadcast: assert arg(1) == ret(updateRecord)
+//@   site call handleReplacementTxError: assert retn(createAndCheckTx, 1) != nil
